@@ -1809,6 +1809,12 @@ class BaseEvolutionOperations(object):
                 cursor.close()
 
             for index_name, info in six.iteritems(constraints):
+                if (info.get('check') or
+                    (info.get('foreign_key') and not info.get('index'))):
+                    # CHECK and FOREIGN KEY constraints aren't indexes. Only
+                    # the indexes backing them (listed separately) are.
+                    continue
+
                 results[index_name] = {
                     'unique': info.get('unique', False),
                     'columns': info.get('columns', []),
